@@ -149,7 +149,7 @@ theorem doa_eq (cfg : Cfg) (rm : Remotes) (s : Sys) (mem : OSet) :
       | (w, .err) => ({ s with w := w }, .err)
       | (w, .notDone) => notDoneTail { s with w := w } mem
       | (w, .done) =>
-        match ({ s with w := w, freed := s.freed ++ [mem.name] } : Sys).setFinalizer mem false with
+        match ({ s with w := w.free mem.owner.wref, freed := s.freed ++ [mem.name] } : Sys).setFinalizer mem false with
         | (s, .error _) => (s, .err)
         | (s, .ok m) => doneTail s m := by
   simp only [deletionOrArchival, doneTail, notDoneTail]
@@ -162,7 +162,7 @@ theorem doa_eq (cfg : Cfg) (rm : Remotes) (s : Sys) (mem : OSet) :
       by_cases h : mem.lifecycle = .archived <;> simp [h]
     | done =>
       simp only
-      cases Sys.setFinalizer { s with w := w, freed := s.freed ++ [mem.name] } mem false with
+      cases Sys.setFinalizer { s with w := w.free mem.owner.wref, freed := s.freed ++ [mem.name] } mem false with
       | mk s' r =>
         cases r with
         | error e => rfl
@@ -255,12 +255,15 @@ theorem teardown_pass (cfg : Cfg) (rm : Remotes) (name : String) (s : Sys) (mem 
       rcases ht.mode with ⟨hdel, hlc⟩ | ⟨hdel, hlc⟩
       · -- deleted ObjectSet: removing the finalizer removes it
         obtain ⟨f1, f2, f3, f4, f5, f6⟩ := setFinalizer_removes
-          { s with w := w1, freed := s.freed ++ [mem.name] } mem hq.sets (by rw [ht.named]; exact ht.stored)
+          { s with w := w1.free mem.owner.wref, freed := s.freed ++ [mem.name] } mem hq.sets (by rw [ht.named]; exact ht.stored)
           ht.fin hdel ht.noOrphan
-        cases hsf : Sys.setFinalizer { s with w := w1, freed := s.freed ++ [mem.name] } mem false with
+        cases hsf : Sys.setFinalizer { s with w := w1.free mem.owner.wref, freed := s.freed ++ [mem.name] } mem false with
         | mk s3 r =>
           rw [hsf] at f1 f2 f3 f4 f5 f6
           simp only at f1 f2 f3 f4 f5 f6
+          -- (`Free` only touched the process's cache registrations)
+          simp only [free_store] at f1 f5
+          have f4 : Kept w1 s3.w := f4
           subst f1
           simp only
           have hlc' : ({ mem with finCached := false } : OSet).lifecycle ≠ .archived := hlc
@@ -274,12 +277,15 @@ theorem teardown_pass (cfg : Cfg) (rm : Remotes) (name : String) (s : Sys) (mem 
           · intro h; rw [hdel] at h; cases h
       · -- archived ObjectSet: finalizer dropped, then Archived=True is reported
         obtain ⟨f1, f2, f3, f4, f5, f6⟩ := setFinalizer_drops
-          { s with w := w1, freed := s.freed ++ [mem.name] } mem hq.sets (by rw [ht.named]; exact ht.stored)
+          { s with w := w1.free mem.owner.wref, freed := s.freed ++ [mem.name] } mem hq.sets (by rw [ht.named]; exact ht.stored)
           ht.fin hdel
-        cases hsf : Sys.setFinalizer { s with w := w1, freed := s.freed ++ [mem.name] } mem false with
+        cases hsf : Sys.setFinalizer { s with w := w1.free mem.owner.wref, freed := s.freed ++ [mem.name] } mem false with
         | mk s3 r =>
           rw [hsf] at f1 f2 f3 f4 f5 f6
           simp only at f1 f2 f3 f4 f5 f6
+          -- (`Free` only touched the process's cache registrations)
+          simp only [free_store] at f1 f5
+          have f4 : Kept w1 s3.w := f4
           subst f1
           simp only
           have hlc' : ({ mem with finCached := false, rv := w1.store.nextRV } : OSet).lifecycle = .archived := hlc
